@@ -365,7 +365,8 @@ static void arrayHistory(ArrayCk& ck, Rng& r, long idx) {
     case 1: { size_t room = m.c->capacity() - n; size_t c2; switch (r.below(5)) { case 0: c2 = 0; break; case 1: c2 = room; break; case 2: c2 = room + 1; break; case 3: c2 = room ? room - 1 : 1; break; default: c2 = r.below(9); break; } if (c2 > 40) c2 = 40; if (n > 300 && c2 > 2) c2 = 2; ck.opAppendBlock(m, r, c2, k, uid); break; }
     case 2: if (r.chance(1, 5)) { if (2 * n <= 300) ck.opAppendArray(m, m); }   // the array itself as argument (also part of C04)
             else if (n + other.ref.n <= 300) ck.opAppendArray(m, other); break;
-    case 3: { size_t i = r.chance(1, 5) ? n + r.below(3) : n ? (r.chance(1, 4) ? 0 : r.chance(1, 3) ? n - 1 : r.below(n)) : 0; ck.opRemoveIndex(m, i); removed = removed || i < n; break; }
+    case 3: { static const size_t huge[] = { (size_t)-1, (size_t)-2, (size_t)-1 / 2, (size_t)-1 / 2 + 1, (size_t)-1 / sizeof(Val), (size_t)-1 / sizeof(Val) + 1, (size_t)1 << 60, (size_t)1 << 61 };   // byte offsets that wrap around
+              size_t i = r.chance(1, 12) ? huge[r.below(8)] : r.chance(1, 5) ? n + r.below(3) : n ? (r.chance(1, 4) ? 0 : r.chance(1, 3) ? n - 1 : r.below(n)) : 0; ck.opRemoveIndex(m, i); removed = removed || i < n; break; }
     case 4: if (n) { size_t i = r.chance(1, 4) ? 0 : r.chance(1, 3) ? n - 1 : r.below(n); ck.opRemoveIt(m, i); removed = true; } break;
     case 5: if (n) { ck.opRemoveEnd(m, true); removed = true; } break;
     case 6: if (n) { ck.opRemoveEnd(m, false); removed = true; } break;
